@@ -12,7 +12,8 @@ use std::sync::atomic::{AtomicU64, Ordering};
 const P: &str = "C06";
 pub fn num_alts() -> Vec<Nat> { vec![Nat::zero(), Nat::from_u64(0x7f), Nat::from_u64(0x80), Nat::from_u64(0xff), Nat::from_u64(0x100), Nat::pow2(64), Nat::pow2(255), Nat::pow2(256).sub(&Nat::from_u64(1)),
     // not representable as doubles: 2^53+1, 13.37 ether + 1 wei, 2^64-1
-    Nat::from_u64(9007199254740993), Nat::from_u64(13370000000000000001), Nat::from_u64(u64::MAX)] }
+    Nat::from_u64(9007199254740993), Nat::from_u64(13370000000000000001), Nat::from_u64(u64::MAX),
+    Nat::from_dec("20000000000000000001").unwrap(), Nat::pow2(64).add(&Nat::from_u64(1)), Nat::from_dec("100000000000000000000001").unwrap()] }
 pub fn chain_alts() -> Vec<Nat> { let w = |k: usize, d: i64| { let base = Nat::pow2(k).sub(&Nat::from_u64(36)).divrem_small(2).0; if d >= 0 { base.add(&Nat::from_u64(d as u64)) } else { base.sub(&Nat::from_u64((-d) as u64)) } }; let _ = &w; vec![Nat::zero(), Nat::from_u64(1), Nat::from_u64(0x7f), Nat::from_u64(0x80), Nat::pow2(32), Nat::pow2(64).sub(&Nat::from_u64(1)), Nat::pow2(255).sub(&Nat::from_u64(19)), Nat::pow2(128),
     // (2^k - 36) / 2 and its neighbours: v = 35 + 2c + parity crosses the k-bit boundary (k = 8, 16, 32, 64)
     w(8, 0), w(8, 1), w(16, 0), w(16, 1), w(32, -1), w(32, 0), w(32, 1), w(64, -1), w(64, 0), w(64, 1), w(128, 0), w(128, 1)] }
@@ -25,8 +26,8 @@ pub fn keys() -> Vec<U256> { vec![U256::from_hex("4f3edf983ac636a65a842ce7c78d9a
 
 /// dimension table for a kind: names and number of values (index 0 = template default)
 pub fn dims(kind: Kind, with_chain: bool) -> Vec<(&'static str, usize)> {
-    let mut d = vec![("nonce", 12), ("gas", 12), ("value", 12), ("to", 4), ("data", 7), ("key", 2), ("tweak", 8), ("spelling", 6)];
-    if kind == Kind::Eip1559 { d.push(("maxPriorityFeePerGas", 12)); d.push(("maxFeePerGas", 12)); } else { d.push(("gasPrice", 12)); }
+    let mut d = vec![("nonce", 15), ("gas", 15), ("value", 15), ("to", 4), ("data", 7), ("key", 2), ("tweak", 8), ("spelling", 7)];
+    if kind == Kind::Eip1559 { d.push(("maxPriorityFeePerGas", 15)); d.push(("maxFeePerGas", 15)); } else { d.push(("gasPrice", 15)); }
     if with_chain || kind != Kind::Legacy { d.push(("chainId", 9 + 12)); }
     if kind != Kind::Legacy { d.push(("accessList", 6)); }
     d
@@ -43,7 +44,7 @@ pub fn build(kind: Kind, with_chain: bool, dm: &[(&'static str, usize)], choice:
             "data" => tx.data = data_alts()[*c - 1].clone(),
             "accessList" => tx.access_list = access_alts()[*c - 1].clone(),
             "key" => key = *c, "tweak" => tweak = *c as u64,
-            "spelling" => spell = [Spell::Auto, Spell::Dec, Spell::Hex, Spell::HexUpper, Spell::JsonIntIfU64, Spell::FloatIfExact][*c],
+            "spelling" => spell = [Spell::Auto, Spell::Dec, Spell::Hex, Spell::HexUpper, Spell::JsonIntIfU64, Spell::FloatIfExact, Spell::JsonInt][*c],
             _ => unreachable!(),
         }
     }
@@ -62,6 +63,16 @@ pub fn run(ctx: &Ctx) {
         ctx.sweep(&sweep, &format!("{kname}: all assignments with <= {d} deviations from a template with pairwise distinct fields over {} dimensions (numeric boundaries 0,0x7f,0x80,0xff,0x100,2^64,2^255,2^256-1; recipient absent/zero/ff; calldata 1B..1KiB; access-list shapes; 2 keys; 4 spellings)", dm.len()), choices.len() as u64, |i| {
             let (tx, key, spell, devs) = build(kind, with_chain, &dm, &choices[i as usize]);
             let text = txjson::tx_json(&tx, spell).reordered(i % 3).to_text(); // key order rotates with the case index
+            // bare JSON integers of 2^64 and more are not a spelling the tool is obliged to read: refused, or read exactly
+            let big = Nat::pow2(64); let unconstrained = spell == Spell::JsonInt && [&tx.nonce, &tx.gas, &tx.value, &tx.gas_price, &tx.max_priority, &tx.max_fee].iter().any(|v| **v >= big) || spell == Spell::JsonInt && tx.chain_id.as_ref().map_or(false, |c| *c >= big);
+            if unconstrained {
+                match observe_tx(&text, &Signer::Key(&keys()[key])) {
+                    Err(pn) => { ctx.eval(format!("{kname},bare-big-integers:panic")); ctx.panic_violation(format!("{P}:tx:{kname},bare-big-integers:panic@{}", explore::panic_site(&pn)), format!("panics: {pn}"), tx_replay(&sweep, i, &text, Some(&tx), Some(&keys()[key]))) }
+                    Ok(Err(_)) => ctx.eval(format!("{kname},bare-big-integers:refused")),
+                    Ok(Ok(o)) => { ctx.eval(format!("{kname},bare-big-integers:accepted")); if let Some((kind, what)) = compare_tx(&curve, &tx, &o, Some(&keys()[key])) { ctx.violation(format!("{P}:tx:{kname},bare-big-integers:{kind}"), format!("a bare JSON integer of 2^64 or more was accepted but not taken at its exact value: {what}"), tx_replay(&sweep, i, &text, Some(&tx), Some(&keys()[key]))) } }
+                }
+                return;
+            }
             if let Some(o) = expect_accept(ctx, P, &sweep, i, &format!("{kname},dev={devs}"), &text, &tx, &keys()[key], &curve) { parity[ki][o.odd as usize].fetch_add(1, Ordering::Relaxed); }
         });
     }
